@@ -145,29 +145,191 @@ func c15ExactFirst(c *Check, a *Anchors) {
 		okAlias = okAlias && len(call.Args) == 1 && isNilLit(aliasInfo, call.Args[0])
 	}
 	c.Decide(okAlias, "exact-first", "alias-last@"+name, gt.Decl.Pos(), "the alias scan follows the returning match test and iterates in definition order", "aliases are consulted before (or without) the exact/wildcard match test, or in sorter order")
-	// error classes
+	// error classes: which outcome for which number of alias hits — abstract evaluation of the if / switch statements on
+	// len(<hit list>) over the counts {0, 1, 2, 3}
 	conflict, notFound, suggestion := false, false, false
-	inspectBody(gt.Body, func(nd ast.Node) bool {
-		ifs, ok := nd.(*ast.IfStmt)
-		if !ok {
-			return true
+	{
+		outcome := map[string]map[int]bool{}
+		record := func(kind string, set map[int]bool) {
+			if outcome[kind] == nil {
+				outcome[kind] = map[int]bool{}
+			}
+			for n := range set {
+				outcome[kind][n] = true
+			}
 		}
-		cond := exprStr(ifs.Cond)
-		for _, r := range returnsOf(ifs.Body) {
+		info := gt.Info()
+		lenOf := func(e ast.Expr) bool {
+			call, ok := ast.Unparen(e).(*ast.CallExpr)
+			if !ok || !isBuiltin(info, call, "len") || len(call.Args) != 1 {
+				return false
+			}
+			tv, ok := info.Types[call.Args[0]]
+			return ok && types.TypeString(tv.Type, nil) == "[]string"
+		}
+		constInt := func(e ast.Expr) (int, bool) {
+			if t := constText(info, e); t != "" {
+				if n, err := strconv.Atoi(t); err == nil {
+					return n, true
+				}
+			}
+			return 0, false
+		}
+		kindOf := func(r *ast.ReturnStmt) string {
 			res := errResult(r)
 			if res == nil {
-				continue
+				return ""
+			}
+			if isNilLit(info, res) {
+				return "ok"
 			}
 			s := exprStr(res)
-			if strings.Contains(cond, "> 1") && strings.Contains(s, "TaskNameConflictError") {
-				conflict = true
+			switch {
+			case strings.Contains(s, "TaskNameConflictError"):
+				return "conflict"
+			case strings.Contains(s, "TaskNotFoundError"):
+				return "notfound"
 			}
-			if strings.Contains(cond, "== 0") && strings.Contains(s, "TaskNotFoundError") {
-				notFound = true
+			return "other"
+		}
+		var walk func(list []ast.Stmt, set map[int]bool) map[int]bool // returns the counts that fall through
+		walk = func(list []ast.Stmt, set map[int]bool) map[int]bool {
+			for _, st := range list {
+				if len(set) == 0 {
+					return set
+				}
+				switch x := st.(type) {
+				case *ast.ReturnStmt:
+					record(kindOf(x), set)
+					return map[int]bool{}
+				case *ast.IfStmt:
+					be, isBin := ast.Unparen(x.Cond).(*ast.BinaryExpr)
+					k, isK := 0, false
+					if isBin {
+						k, isK = constInt(be.Y)
+					}
+					if !isBin || !lenOf(be.X) || !isK {
+						// a condition about something else: both branches see the same counts
+						fall := walk(x.Body.List, set)
+						if x.Else != nil {
+							if eb, ok := x.Else.(*ast.BlockStmt); ok {
+								for n := range walk(eb.List, set) {
+									fall[n] = true
+								}
+							}
+						} else {
+							for n := range set {
+								fall[n] = true
+							}
+						}
+						set = fall
+						continue
+					}
+					tset, fset := map[int]bool{}, map[int]bool{}
+					for n := range set {
+						holds := false
+						switch be.Op {
+						case token.GTR:
+							holds = n > k
+						case token.GEQ:
+							holds = n >= k
+						case token.LSS:
+							holds = n < k
+						case token.LEQ:
+							holds = n <= k
+						case token.EQL:
+							holds = n == k
+						case token.NEQ:
+							holds = n != k
+						}
+						if holds {
+							tset[n] = true
+						} else {
+							fset[n] = true
+						}
+					}
+					fall := walk(x.Body.List, tset)
+					if x.Else != nil {
+						if eb, ok := x.Else.(*ast.BlockStmt); ok {
+							for n := range walk(eb.List, fset) {
+								fall[n] = true
+							}
+						} else if ei, ok := x.Else.(*ast.IfStmt); ok {
+							for n := range walk([]ast.Stmt{ei}, fset) {
+								fall[n] = true
+							}
+						}
+					} else {
+						for n := range fset {
+							fall[n] = true
+						}
+					}
+					set = fall
+				case *ast.SwitchStmt:
+					if x.Tag == nil || !lenOf(x.Tag) {
+						continue
+					}
+					rest := map[int]bool{}
+					for n := range set {
+						rest[n] = true
+					}
+					fall := map[int]bool{}
+					var def *ast.CaseClause
+					for _, cl := range x.Body.List {
+						cc := cl.(*ast.CaseClause)
+						if cc.List == nil {
+							def = cc
+							continue
+						}
+						cs := map[int]bool{}
+						for _, e := range cc.List {
+							if k, ok := constInt(e); ok && set[k] {
+								cs[k] = true
+								delete(rest, k)
+							}
+						}
+						for n := range walk(cc.Body, cs) {
+							fall[n] = true
+						}
+					}
+					if def != nil {
+						for n := range walk(def.Body, rest) {
+							fall[n] = true
+						}
+					} else {
+						for n := range rest {
+							fall[n] = true
+						}
+					}
+					set = fall
+				}
+			}
+			return set
+		}
+		// start after the alias scan
+		var tail []ast.Stmt
+		for i, st := range gt.Body.List {
+			if aliasLoop != nil && st.Pos() <= aliasLoop.Pos() && aliasLoop.End() <= st.End() {
+				tail = gt.Body.List[i+1:]
 			}
 		}
-		return true
-	})
+		if tail != nil {
+			walk(tail, map[int]bool{0: true, 1: true, 2: true, 3: true})
+		}
+		eq := func(m map[int]bool, want ...int) bool {
+			if len(m) != len(want) {
+				return false
+			}
+			for _, w := range want {
+				if !m[w] {
+					return false
+				}
+			}
+			return true
+		}
+		conflict = eq(outcome["conflict"], 2, 3)
+		notFound = eq(outcome["notfound"], 0) && eq(outcome["ok"], 1)
+	}
 	for _, g := range c.P.groupOf(gt, 2) {
 		inspectBody(g.Body, func(nd ast.Node) bool {
 			if call, ok := nd.(*ast.CallExpr); ok {
@@ -180,7 +342,7 @@ func c15ExactFirst(c *Check, a *Anchors) {
 			return true
 		})
 	}
-	c.Decide(conflict, "exact-first", "alias-conflict-203@"+name, gt.Decl.Pos(), "more than one alias hit -> *TaskNameConflictError", "ambiguous aliases no longer yield *TaskNameConflictError under `> 1`")
+	c.Decide(conflict, "exact-first", "alias-conflict-203@"+name, gt.Decl.Pos(), "more than one alias hit -> *TaskNameConflictError", "*TaskNameConflictError is not returned exactly when more than one task carries the alias (abstract evaluation of the conditions on the hit count over 0..3)")
 	c.Decide(notFound && suggestion, "exact-first", "not-found-200@"+name, gt.Decl.Pos(), "no hit -> *TaskNotFoundError with fuzzyModel.SpellCheck", fmt.Sprintf("an unknown name no longer yields *TaskNotFoundError with the fuzzy suggestion (not found: %v, suggestion from the model: %v)", notFound, suggestion))
 }
 
@@ -202,38 +364,9 @@ func c15PatternLiteral(c *Check, a *Anchors) {
 	c.Fn(fb)
 	info := fb.Info()
 	name := fnDisplay(fb)
-	// parts := strings.Split(t.Task, "*")
-	var parts *types.Var
-	inspectBody(fb.Body, func(nd ast.Node) bool {
-		if as, ok := nd.(*ast.AssignStmt); ok && len(as.Rhs) == 1 {
-			if call, ok := ast.Unparen(as.Rhs[0]).(*ast.CallExpr); ok && isFunc(callee(info, call), "strings", "", "Split") && len(call.Args) == 2 && fieldSel(info, call.Args[0], PkgAst, "Task", "Task") && constIs(info, call.Args[1], `"*"`) {
-				parts = varOf(info, as.Lhs[0])
-			}
-		}
-		return true
-	})
-	quoted := false
-	if parts != nil {
-		inspectBody(fb.Body, func(nd ast.Node) bool {
-			r, ok := nd.(*ast.RangeStmt)
-			if !ok || varOf(info, r.X) != parts {
-				return true
-			}
-			for _, s := range r.Body.List {
-				if as, ok := s.(*ast.AssignStmt); ok && len(as.Lhs) == 1 && len(as.Rhs) == 1 {
-					ix, isIx := ast.Unparen(as.Lhs[0]).(*ast.IndexExpr)
-					call, isCall := ast.Unparen(as.Rhs[0]).(*ast.CallExpr)
-					if isIx && isCall && varOf(info, ix.X) == parts && isFunc(callee(info, call), "regexp", "", "QuoteMeta") && r.Value != nil && varOf(info, call.Args[0]) == varOf(info, r.Value) && unconditionalIn(r.Body.List, as) {
-						quoted = true
-					}
-				}
-			}
-			return true
-		})
-	}
-	// compile argument
-	compileOK, anchored, dotAll := false, false, false
+	// provenance of the string handed to the regexp compiler: constants, QuoteMeta'd values, or raw pieces of the name
 	nCompile := 0
+	var pieces []rxPiece
 	inspectBody(fb.Body, func(nd ast.Node) bool {
 		call, ok := nd.(*ast.CallExpr)
 		if !ok {
@@ -244,58 +377,53 @@ func c15PatternLiteral(c *Check, a *Anchors) {
 			return true
 		}
 		nCompile++
-		arg := call.Args[0]
-		if v := varOf(info, arg); v != nil {
-			if d := singleDef(info, fb.Body, v); d != nil {
-				arg = d
-			}
-		}
-		rawName := false
-		usesParts := false
-		ast.Inspect(arg, func(m ast.Node) bool {
-			switch x := m.(type) {
-			case *ast.SelectorExpr:
-				if fieldSel(info, x, PkgAst, "Task", "Task") {
-					rawName = true
-				}
-			case *ast.Ident:
-				if parts != nil && info.Uses[x] == parts {
-					usesParts = true
-				}
-			case *ast.BasicLit:
-				if x.Kind == token.STRING {
-					if v := constText(info, x); v != "" {
-						if t, err := strconv.Unquote(v); err == nil {
-							// leading inline flag groups such as (?s) do not affect anchoring
-							flags := ""
-							for strings.HasPrefix(t, "(?") {
-								end := strings.Index(t, ")")
-								if end < 0 || strings.ContainsAny(t[2:end], ":<=!P") {
-									break
-								}
-								flags += t[2:end]
-								t = t[end+1:]
-							}
-							if (strings.HasPrefix(t, "^") || strings.HasPrefix(t, `\A`)) && (strings.HasSuffix(t, "$") || strings.HasSuffix(t, `\z`)) {
-								anchored = true
-								if strings.Contains(flags, "s") {
-									dotAll = true
-								}
-							}
-							if strings.Contains(t, `[\s\S]`) {
-								dotAll = true
-							}
-						}
-					}
-				}
-			}
-			return true
-		})
-		compileOK = usesParts && !rawName
+		pieces = rxProvenance(info, fb, call.Args[0], 0)
 		return true
 	})
-	c.Decide(parts != nil && quoted && compileOK && nCompile == 1, "pattern-literal", "quoted-parts@"+name, fb.Decl.Pos(), "only QuoteMeta'd pieces of the name reach the regexp compiler",
-		fmt.Sprintf("the task name reaches the regexp compiler unquoted (split on '*': %v, every piece QuoteMeta'd: %v, pattern built from the pieces only: %v): '.', '(', '+' ... in a task name are interpreted as regexp syntax (wrong matches, or a panic in MustCompile)", parts != nil, quoted, compileOK))
+	raw, nQuoted := "", 0
+	var consts []string
+	for _, p := range pieces {
+		switch p.kind {
+		case "raw":
+			raw = p.text
+		case "quoted":
+			nQuoted++
+		case "const":
+			consts = append(consts, p.text)
+		}
+	}
+	splitOnStar := false
+	inspectBody(fb.Body, func(nd ast.Node) bool {
+		if call, ok := nd.(*ast.CallExpr); ok && isFunc(callee(info, call), "strings", "", "Split") && len(call.Args) == 2 && fieldSel(info, call.Args[0], PkgAst, "Task", "Task") && constIs(info, call.Args[1], `"*"`) {
+			splitOnStar = true
+		}
+		return true
+	})
+	anchored, dotAll := false, false
+	if len(consts) > 0 {
+		first, last := consts[0], consts[len(consts)-1]
+		flags := ""
+		for strings.HasPrefix(first, "(?") {
+			end := strings.Index(first, ")")
+			if end < 0 || strings.ContainsAny(first[2:end], ":<=!P") {
+				break
+			}
+			flags += first[2:end]
+			first = first[end+1:]
+		}
+		if len(consts) == 1 {
+			last = first
+		}
+		anchored = (strings.HasPrefix(first, "^") || strings.HasPrefix(first, `\A`)) && (strings.HasSuffix(last, "$") || strings.HasSuffix(last, `\z`))
+		dotAll = strings.Contains(flags, "s")
+		for _, k := range consts {
+			if strings.Contains(k, `[\s\S]`) {
+				dotAll = true
+			}
+		}
+	}
+	c.Decide(splitOnStar && raw == "" && nQuoted > 0 && nCompile == 1, "pattern-literal", "quoted-parts@"+name, fb.Decl.Pos(), "only QuoteMeta'd pieces of the name (and constants) reach the regexp compiler",
+		fmt.Sprintf("the task name reaches the regexp compiler unquoted (split on '*': %v, unquoted piece: %q, QuoteMeta'd pieces: %d): '.', '(', '+' ... in a task name are interpreted as regexp syntax (wrong matches, or a panic in MustCompile)", splitOnStar, raw, nQuoted))
 	c.Decide(anchored, "pattern-literal", "anchored@"+name, fb.Decl.Pos(), "pattern is ^...$", "the pattern is no longer anchored with ^ and $")
 	c.Decide(dotAll, "pattern-literal", "wildcard-matches-any-character@"+name, fb.Decl.Pos(), "the wildcard group matches every character (s flag)", "the wildcard is `.*` without the s flag: '*' does not match a newline, so it is not true that only '*' is special and every other character literal")
 	// a positive answer only after the regexp matched
@@ -484,4 +612,146 @@ func nilContradictions(c *Check, a *Anchors, rule string, pkgs []string) {
 		c.OK(rule, "package task", 0, fmt.Sprintf("no contradiction in %d function bodies that test a field path against nil", n))
 	}
 	c.Floor(rule, n, 3)
+}
+
+
+// rxPiece: one component of a string expression — a constant, a value that went through regexp.QuoteMeta, or anything else.
+type rxPiece struct{ kind, text string }
+
+// rxProvenance flattens a string-building expression (+, fmt.Sprintf, strings.Join, variables and the slices they are built
+// from) into its components in order.
+func rxProvenance(info *types.Info, fb *FuncBody, e ast.Expr, depth int) []rxPiece {
+	e = ast.Unparen(e)
+	if depth > 6 {
+		return []rxPiece{{"raw", exprStr(e)}}
+	}
+	if v := constText(info, e); v != "" {
+		if t, err := strconv.Unquote(v); err == nil {
+			return []rxPiece{{"const", t}}
+		}
+		return []rxPiece{{"const", v}}
+	}
+	switch x := e.(type) {
+	case *ast.BinaryExpr:
+		if x.Op == token.ADD {
+			return append(rxProvenance(info, fb, x.X, depth+1), rxProvenance(info, fb, x.Y, depth+1)...)
+		}
+	case *ast.CallExpr:
+		fn, _ := callee(info, x).(*types.Func)
+		switch {
+		case fn != nil && fn.Pkg() != nil && fn.Pkg().Path() == "regexp" && fn.Name() == "QuoteMeta":
+			return []rxPiece{{"quoted", exprStr(x)}}
+		case fn != nil && fn.Pkg() != nil && fn.Pkg().Path() == "fmt" && fn.Name() == "Sprintf" && len(x.Args) >= 1:
+			// the format is split at its verbs; each verb is replaced by the provenance of its argument
+			format := constText(info, x.Args[0])
+			if t, err := strconv.Unquote(format); err == nil {
+				var out []rxPiece
+				segs := strings.Split(t, "%s")
+				for i, seg := range segs {
+					if seg != "" {
+						out = append(out, rxPiece{"const", seg})
+					}
+					if i < len(segs)-1 {
+						if i+1 < len(x.Args) {
+							out = append(out, rxProvenance(info, fb, x.Args[i+1], depth+1)...)
+						} else {
+							out = append(out, rxPiece{"raw", "missing Sprintf argument"})
+						}
+					}
+				}
+				return out
+			}
+		case fn != nil && fn.Pkg() != nil && fn.Pkg().Path() == "strings" && fn.Name() == "Join" && len(x.Args) == 2:
+			elems := rxSliceProvenance(info, fb, x.Args[0], depth+1)
+			sep := rxProvenance(info, fb, x.Args[1], depth+1)
+			// elem sep elem
+			out := append([]rxPiece{}, elems...)
+			out = append(out, sep...)
+			out = append(out, elems...)
+			return out
+		}
+	case *ast.Ident:
+		if v, ok := info.Uses[x].(*types.Var); ok && !v.IsField() {
+			defs := defsOf(info, fb.Body, v)
+			if len(defs) == 1 {
+				return rxProvenance(info, fb, defs[0], depth+1)
+			}
+		}
+	}
+	return []rxPiece{{"raw", exprStr(e)}}
+}
+
+// rxSliceProvenance: what the elements of a []string are made of (element assignments, appends, the Split it started as).
+func rxSliceProvenance(info *types.Info, fb *FuncBody, e ast.Expr, depth int) []rxPiece {
+	v := varOf(info, e)
+	if v == nil || depth > 6 {
+		return []rxPiece{{"raw", exprStr(e)}}
+	}
+	var out []rxPiece
+	add := func(ps []rxPiece) {
+		for _, p := range ps {
+			dup := false
+			for _, q := range out {
+				if q.kind == p.kind && (p.kind != "raw" || q.text == p.text) {
+					dup = true
+				}
+			}
+			if !dup {
+				out = append(out, p)
+			}
+		}
+	}
+	overwrittenAll := false
+	inspectBody(fb.Body, func(nd ast.Node) bool {
+		switch x := nd.(type) {
+		case *ast.AssignStmt:
+			for i, l := range x.Lhs {
+				if ix, ok := ast.Unparen(l).(*ast.IndexExpr); ok && varOf(info, ix.X) == v && i < len(x.Rhs) {
+					add(rxProvenance(info, fb, x.Rhs[i], depth+1))
+				}
+				if varOf(info, l) == v && i < len(x.Rhs) {
+					if ac, ok := ast.Unparen(x.Rhs[i]).(*ast.CallExpr); ok && isBuiltin(info, ac, "append") {
+						for _, a := range ac.Args[1:] {
+							add(rxProvenance(info, fb, a, depth+1))
+						}
+					}
+				}
+			}
+		case *ast.RangeStmt:
+			// for i, p := range v { v[i] = f(p) } overwrites every element: the initial contents do not survive
+			if varOf(info, x.X) == v && x.Key != nil {
+				for _, st := range x.Body.List {
+					if as, ok := st.(*ast.AssignStmt); ok && len(as.Lhs) == 1 {
+						if ix, ok := ast.Unparen(as.Lhs[0]).(*ast.IndexExpr); ok && varOf(info, ix.X) == v && varOf(info, ix.Index) == varOf(info, x.Key) && unconditionalIn(x.Body.List, as) {
+							overwrittenAll = true
+						}
+					}
+				}
+			}
+		}
+		return true
+	})
+	// the initial value
+	for _, d := range defsOf(info, fb.Body, v) {
+		d = ast.Unparen(d)
+		if call, ok := d.(*ast.CallExpr); ok {
+			if isBuiltin(info, call, "make") || isBuiltin(info, call, "append") {
+				continue
+			}
+			if !overwrittenAll {
+				add([]rxPiece{{"raw", exprStr(d)}})
+			}
+			continue
+		}
+		if _, ok := d.(*ast.CompositeLit); ok {
+			continue
+		}
+		if !overwrittenAll {
+			add([]rxPiece{{"raw", exprStr(d)}})
+		}
+	}
+	if len(out) == 0 {
+		return []rxPiece{{"raw", exprStr(e)}}
+	}
+	return out
 }
